@@ -79,6 +79,8 @@ type Scenario struct {
 	AceHold   [][2]int     `json:"acehold,omitempty"` // cycle windows in which the dispatcher does not take completions
 	Vals      bool         `json:"vals,omitempty"`    // compare final memory with emulation
 	NoEmu     bool         `json:"noemu,omitempty"`
+	EmuOnly   bool         `json:"emuonly,omitempty"` // only the emulation CU runs (completion-report scenarios)
+	EmuPlan   [][]interface{} `json:"emuplan,omitempty"` // script for the dispatcher side of the emulation CU: ["map", g] deliver work-group g (1-based), ["step", n] run the next n event times, ["hold"] / ["free"] stop / resume taking completion messages from ToDispatcher (back-pressure), ["take"] take what is there now
 	Sampled   bool         `json:"sampled,omitempty"` // wavefront sampling on, prediction stable: handleWfCompletionEvent path
 	VLimit    int          `json:"vlimit,omitempty"`  // > 0: ComputeUnit.InFlightVectorMemAccessLimit (public field; the builder sets 512)
 	FE        bool         `json:"fe,omitempty"`      // log front-end facts (fetch, issue-time facts, every task end) for CUFrontTrace.tla
@@ -352,7 +354,7 @@ func (r *runner) runEmu(ce *caseEnv, idx int) (img *memImage, paths map[int][]st
 		for u.ToDispatcher.RetrieveOutgoing() != nil {
 		}
 	}
-	for _, b := range order {
+	mkReq := func(b *builtWG) *protocol.MapWGReq {
 		locs := make([]protocol.WfDispatchLocation, len(b.wg.Wavefronts))
 		for i, wf := range b.wg.Wavefronts {
 			locs[i] = protocol.WfDispatchLocation{Wavefront: wf}
@@ -361,16 +363,93 @@ func (r *runner) runEmu(ce *caseEnv, idx int) (img *memImage, paths map[int][]st
 			WithPID(1).WithWG(b.wg).Build()
 		req.Wavefronts = locs
 		b.req = req
-		for tries := 0; u.ToDispatcher.Deliver(req) != nil; tries++ {
-			if tries > 1000 {
-				panic("harness: emu CU never accepts the MapWGReq")
+		return req
+	}
+	if len(ce.sc.EmuPlan) > 0 {
+		// scripted dispatcher side.  (Virtual time is no guide here: the emulation CU runs a group mapped at time t at
+		// Ceil(t) seconds, so the script counts event times instead of cycles.)
+		holding := false
+		take := func() {
+			for u.ToDispatcher.RetrieveOutgoing() != nil {
+			}
+		}
+		one := func() {
+			if t, ok := eng.NextTime(); ok {
+				eng.RunUntil(t)
+			}
+			if !holding {
+				take()
+			}
+		}
+		for _, op := range ce.sc.EmuPlan {
+			name, _ := op[0].(string)
+			arg := 0
+			if len(op) > 1 {
+				f, _ := op[1].(float64)
+				arg = int(f)
+			}
+			switch name {
+			case "map":
+				if arg < 1 || arg > len(ce.wgs) || ce.wgs[arg-1].req != nil {
+					fmt.Println("INFRA: bad emuplan map", arg, "in scenario", ce.sc.Name)
+					os.Exit(3)
+				}
+				req := mkReq(ce.wgs[arg-1])
+				for tries := 0; u.ToDispatcher.Deliver(req) != nil; tries++ {
+					if tries > 1000 {
+						panic("harness: emu CU never accepts the MapWGReq")
+					}
+					one()
+				}
+			case "step":
+				for i := 0; i < arg; i++ {
+					one()
+				}
+			case "hold":
+				holding = true
+			case "free":
+				holding = false
+				take()
+			case "take":
+				take()
+			default:
+				fmt.Println("INFRA: bad emuplan op", name, "in scenario", ce.sc.Name)
+				os.Exit(3)
+			}
+		}
+		// the rest: every group not yet mapped, link free, until nothing is scheduled (a retry that never succeeds would
+		// keep the engine busy for ever: bounded, and then reported as what it is - groups unreported)
+		holding = false
+		take()
+		for _, b := range order {
+			if b.req == nil {
+				req := mkReq(b)
+				for tries := 0; u.ToDispatcher.Deliver(req) != nil; tries++ {
+					if tries > 1000 {
+						panic("harness: emu CU never accepts the MapWGReq")
+					}
+					one()
+				}
+				one()
+			}
+		}
+		for i := 0; i < 100000 && eng.Pending() > 0; i++ {
+			one()
+		}
+	} else {
+		for _, b := range order {
+			req := mkReq(b)
+			for tries := 0; u.ToDispatcher.Deliver(req) != nil; tries++ {
+				if tries > 1000 {
+					panic("harness: emu CU never accepts the MapWGReq")
+				}
+				step()
 			}
 			step()
 		}
-		step()
-	}
-	for i := 0; i < 100000 && eng.Pending() > 0; i++ {
-		step()
+		for i := 0; i < 100000 && eng.Pending() > 0; i++ {
+			step()
+		}
 	}
 	pending := 0
 	for _, b := range ce.wgs {
@@ -380,6 +459,26 @@ func (r *runner) runEmu(ce *caseEnv, idx int) (img *memImage, paths map[int][]st
 	}
 	r.emit("Quiesce", ab.Rec{"pending": pending})
 	return img, paths, true
+}
+
+// heldIn: cycle cyc lies in one of the hold windows; holdEndIn: the first cycle after cyc that is outside the window cyc is in.
+func heldIn(w [][2]int, cyc int) bool {
+	for _, h := range w {
+		if cyc >= h[0] && cyc < h[1] {
+			return true
+		}
+	}
+	return false
+}
+
+func holdEndIn(w [][2]int, cyc int) int {
+	e := cyc + 1
+	for _, h := range w {
+		if cyc >= h[0] && cyc < h[1] && h[1] > e {
+			e = h[1]
+		}
+	}
+	return e
 }
 
 // ------------------------------------------------------------------ timing CU
@@ -638,23 +737,6 @@ func (r *runner) runTiming(ce *caseEnv, idx int, ref *memImage, paths map[int][]
 		}
 		queue = rest
 	}
-	heldIn := func(w [][2]int, cyc int) bool {
-		for _, h := range w {
-			if cyc >= h[0] && cyc < h[1] {
-				return true
-			}
-		}
-		return false
-	}
-	holdEndIn := func(w [][2]int, cyc int) int {
-		e := cyc + 1
-		for _, h := range w {
-			if cyc >= h[0] && cyc < h[1] && h[1] > e {
-				e = h[1]
-			}
-		}
-		return e
-	}
 	held := func(cyc int) bool { return heldIn(sc.AceHold, cyc) }
 	holdEnd := func(cyc int) int { return holdEndIn(sc.AceHold, cyc) }
 	order := make([]*builtWG, len(ce.wgs))
@@ -854,6 +936,9 @@ func (r *runner) runCase(i int, sc *Scenario) {
 	refOK := false
 	if !sc.NoEmu {
 		ref, paths, refOK = r.runEmu(ce, i)
+	}
+	if sc.EmuOnly {
+		return
 	}
 	r.runTiming(ce, i, ref, paths, refOK)
 }
